@@ -218,3 +218,14 @@ def eval_finite(program, fn, expr, env, n):
     v = Vec(n, res, attr_hook, lambda call, mask, interp: NotImplemented)
     out = v.eval(expr, np.ones(n, dtype=bool))
     return v.arr(out) if not isinstance(out, np.ndarray) else out
+
+
+def initiated_by_us(facts, fn):
+    """Facts imply "this side initiated the close" inside sendCloseFrame: `self.closedByMe` is true, or -- equivalently, given the
+    function's own `self.closedByMe = not isReply` -- the isReply parameter is false."""
+    facts = facts or ()
+    if ("truth", "self.closedByMe", None, True) in facts:
+        return True
+    defs = [st for st in walk_no_defs(fn.node) if isinstance(st, ast.Assign) and any(is_self_attr(t, "closedByMe") for t in st.targets)]
+    same = len(defs) == 1 and isinstance(defs[0].value, ast.UnaryOp) and isinstance(defs[0].value.op, ast.Not) and norm.text(defs[0].value.operand) == "isReply"
+    return same and ("truth", "isReply", None, False) in facts
